@@ -49,6 +49,12 @@ class Ctx:
 
             eng = TypeEngine(self.repo)
             eng.solve(build_entries(self.repo))
+            if eng.unresolved_calls:
+                ex = sorted(eng.unresolved_calls)
+                raise AnalysisError(
+                    "%d call site(s) whose callee cannot be named statically (table-driven or higher-order dispatch): e.g. %s -- "
+                    "the program is outside the fragment this analysis resolves; no verdict" % (
+                        len(ex), "; ".join("%s %s `%s`" % x for x in ex[:3])))
             self._types = eng
         return self._types
 
